@@ -22,9 +22,11 @@ Definition any_goaway (obs : list evt) : bool := existsb (ev_kind 4) obs.
 Definition panicked (obs : list evt) : bool := existsb (fun e => ev_kind 5 e && negb (ev_val e =? 0)) obs.
 
 (* streams answered with RST_STREAM or a complete response are closed *)
+Definition settle1 (sts : list (Z * Z)) (e : evt) : list (Z * Z) :=
+  let '(k, s, x) := e in
+  if (k =? 2) || ((k =? 3) && Z.odd x) then rset s 3 sts else sts.
 Definition settle (obs : list evt) (r : rstate) : rstate :=
-  mkR (map (fun x => if has_rst obs (fst x) || resp_end obs (fst x) then (fst x, 3) else x) (r_sts r)) (r_max r)
-      (r_stop r || ended obs).
+  mkR (fold_left settle1 obs (r_sts r)) (r_max r) (r_stop r || ended obs).
 
 Definition rules_step (adv : Z) (r : rstate) (o : op) (obs : list evt) : rstate * bool :=
   if r_stop r then (r, true) else
@@ -34,32 +36,36 @@ Definition rules_step (adv : Z) (r : rstate) (o : op) (obs : list evt) : rstate 
   | OHeaders id es kind _ =>
     if negb (id mod 2 =? 1) then (settle obs r, conn_err)                       (* 5.1.1: client streams are odd *)
     else match rfind id (r_sts r) with
-         | Some 1 =>                                                            (* trailers *)
-           if es && (kind =? 1) then
-             let ok := negb (has_rst obs id) && negb (ended obs) in
-             (settle obs (mkR (rset id 2 (r_sts r)) (r_max r) false), ok)
-           else (settle obs r, rst_is obs id 1 || any_goaway obs)              (* 8.1: trailers must end the stream, no pseudo-headers *)
-         | Some 2 => (settle obs r, rst_is obs id 5 || any_goaway obs)          (* 5.1 half-closed(remote): STREAM_CLOSED *)
-         | Some _ => (settle obs r, any_goaway obs)                             (* closed stream: connection error *)
+         | Some p =>
+           if p =? 1 then                                                       (* trailers *)
+             if es && (kind =? 1) then
+               let ok := negb (has_rst obs id) && negb (ended obs) in
+               (settle obs (mkR (rset id 2 (r_sts r)) (r_max r) false), ok)
+             else (settle obs r, rst_is obs id 1 || any_goaway obs)            (* 8.1: trailers must end the stream, no pseudo-headers *)
+           else if p =? 2 then (settle obs r, rst_is obs id 5 || any_goaway obs) (* 5.1 half-closed(remote): STREAM_CLOSED *)
+           else (settle obs r, any_goaway obs)                                  (* closed stream: connection error *)
          | None =>
            if id <=? r_max r then (settle obs r, conn_err)                      (* 5.1.1: ids must increase *)
            else
-             let r1 := mkR (r_sts r) id false in
+             (* the new stream exists from now on (it is closed again at once when it is refused) *)
+             let r1 := mkR ((id, if es then 2 else 1) :: r_sts r) id false in
              if adv <=? nopen (r_sts r) then                                    (* 5.1.2: over the advertised limit: refused somehow *)
                (settle obs r1, has_rst obs id || ended obs)
              else if (kind =? 1) || ((kind =? 2) && negb es) then               (* 8.1.2: malformed request *)
                (settle obs r1, rst_is obs id 1 || any_goaway obs)
              else
                let ok := negb (has_rst obs id) && negb (ended obs) in
-               (settle obs (mkR ((id, if es then 2 else 1) :: r_sts r) id false), ok)
+               (settle obs r1, ok)
          end
   | OData id dlen pad es =>
     if id =? 0 then (settle obs r, conn_err)
     else match rfind id (r_sts r) with
-         | Some 1 =>
-           let acc := negb (has_rst obs id) && negb (ended obs) in
-           (settle obs (mkR (if acc && es then rset id 2 (r_sts r) else r_sts r) (r_max r) false), true)
-         | _ => (settle obs r, has_rst obs id || any_goaway obs)                (* 5.1: DATA on a stream that is not open *)
+         | Some p =>
+           if p =? 1 then
+             let acc := negb (has_rst obs id) && negb (ended obs) in
+             (settle obs (mkR (if acc && es then rset id 2 (r_sts r) else r_sts r) (r_max r) false), true)
+           else (settle obs r, has_rst obs id || any_goaway obs)                (* 5.1: DATA on a stream that is not open *)
+         | None => (settle obs r, has_rst obs id || any_goaway obs)
          end
   | ORst id _ =>
     if id =? 0 then (settle obs r, conn_err)
@@ -71,7 +77,7 @@ Definition rules_step (adv : Z) (r : rstate) (o : op) (obs : list evt) : rstate 
   | OPush _ => (settle obs r, conn_err)                                         (* 8.2: a client cannot push *)
   | OFinish id =>
     match rfind id (r_sts r), hres obs id with
-    | Some p, Some 0 => (settle obs r, (p =? 3) || resp_end obs id)              (* a running stream gets its complete response *)
+    | Some p, Some x => (settle obs r, negb (x =? 0) || (p =? 3) || resp_end obs id)   (* a running stream gets its complete response *)
     | _, _ => (settle obs r, true)
     end
   | _ => (settle obs r, negb (ended obs))                                       (* WINDOW_UPDATE, SETTINGS, reads: connection continues *)
@@ -84,10 +90,25 @@ Fixpoint rules_run (adv : Z) (r : rstate) (ops : list op) (obs : list (list evt)
   | _, _ => false
   end.
 
+(* "the connection either continues or ends with GOAWAY or close": no panic-close event; the step that
+   ends the connection shows exactly one GOAWAY or one plain close; nothing is observed afterwards *)
+Definition clean_endb (obs : list evt) : bool :=
+  match obs with
+  | [(k, s, x)] => (k =? 4) || ((k =? 5) && (s =? 0) && (x =? 0))
+  | _ => false
+  end.
+Fixpoint core_run (dead : bool) (obs : list (list evt)) {struct obs} : bool :=
+  match obs with
+  | [] => true
+  | e :: r =>
+    if dead then (match e with [] => true | _ => false end) && core_run true r
+    else negb (panicked e) && (if ended e then clean_endb e && core_run true r else core_run false r)
+  end.
+
 Definition prop_C35 (i o : val) : bool :=
   match dec_script i, dec_out o with
   | Some (_, maxs, ops), Some (obs, p) =>
-    (p =? 0) && rules_run (if maxs =? 0 then 200 else maxs) (mkR [] 0 false) ops obs
+    (p =? 0) && core_run false obs && rules_run (if maxs =? 0 then 200 else maxs) (mkR [] 0 false) ops obs
   | _, _ => false
   end.
 
